@@ -8,7 +8,7 @@ TLA+ decides: TLC enumerates the inputs together with the admitted outcomes (S2C
 in the printed list) and judges every recorded call, the replayed ones included (C2S, Trace_Access).  Python builds the
 objects, calls pyg_base and encodes what came back.
 """
-import json, os
+import json, logging, os
 from harness import x_access as xa
 from harness.core import Machinery
 
@@ -261,6 +261,295 @@ def run_types(ctx, log):
     c2s_types(ctx, 500 if ctx.quick else 6000, fs, log)
 
 
+
+# =========================================================================================================
+# X07-b  items
+# =========================================================================================================
+def fix_case(area, c):
+    """TLC prints an empty sequence nested in a record as [] - and an empty one at the top of a field too; make every
+    sequence-valued field a list"""
+    def fx(x):
+        if isinstance(x, dict):
+            if not x:
+                return []
+            return {k: fx(v) for k, v in x.items()}
+        if isinstance(x, list):
+            return [fx(v) for v in x]
+        return x
+    return fx(c)
+
+
+def observe_items(area, c):
+    """one call of the real code -> the observation for Trace_Access"""
+    o = {'area': 'items', 'op': area, 'c': c}
+    if area == 'getitem':
+        o.update(xa.run_getitem(c))
+    elif area == 'chain':
+        o['out'] = xa.run_chain(c)
+    elif area == 'getattrs':
+        o.update(xa.run_getattrs(c))
+    elif area == 'relabel':
+        o['out'] = xa.run_relabel(c)
+    elif area == 'relabel_dict':
+        o.update(xa.run_relabel_dict(c))
+    elif area == 'dict_invert':
+        o.update(xa.run_dict_invert(c))
+    elif area == 'as_list':
+        o.update(xa.run_as_list(c))
+    elif area == 'tree_repr':
+        o['lines'] = xa.run_tree_repr(c)
+    else:
+        raise Machinery('unknown area %r' % area)
+    return o
+
+
+def items_case(area, c):
+    """stable, matchable keys of a call"""
+    k = {'op': area, 'c': c}
+    if area == 'getitem':
+        k.update(container=c['c'][0], key=c['k'][0], defaults=len(c['d']))
+    elif area == 'chain':
+        k.update(fn=c['fn'], keys=c['keys']['sp'], nkeys=len(c['keys']['k']), args=c['args']['sp'], kwargs=c['kwargs']['sp'])
+    elif area == 'getattrs':
+        k.update(base=c['base']['sp'], want=c['want']['sp'], defaults=len(c['d']))
+    elif area == 'relabel':
+        k.update(form=c['form']['sp'], nkeys=len(c['keys']), nkw=len(c['kw']))
+    elif area == 'relabel_dict':
+        k.update(form=c['form']['sp'], nkeys=len(c['items']), nkw=len(c['kw']), cls=c['cls'],
+                 strkeys=int(all(isinstance(i[0], str) for i in c['items'])))
+    elif area == 'dict_invert':
+        k.update(n=len(c['items']))
+    elif area == 'as_list':
+        k.update(kind=c['inp']['sp'], n=len(c['inp']['xs']), none=int(bool(c['none'])))
+    elif area == 'tree_repr':
+        k.update(top=c['tree']['t'], cls=c['tree']['cls'], offset=c['offset'])
+    return k
+
+
+def _pairs(x):
+    return frozenset((a, json.dumps(b, sort_keys=True)) if not isinstance(b, str) else (a, b) for a, b in x)
+
+
+def s2c_items(ctx, cases, log):
+    """the expected outcome is what TLC printed: == where it is unique, membership in the printed list where the law admits several"""
+    for k, e in enumerate(cases):
+        area, c, want = e['area'], fix_case(e['area'], e['c']), fix_case(e['area'], e['want'])
+        o = observe_items(area, c)
+        ctx.evals += 1; ctx.traces += 1
+        case = items_case(area, c)
+        bad = []
+        if area in ('getitem', 'chain', 'getattrs', 'dict_invert'):
+            if o['out'] != want['out']:
+                bad.append(({'getitem': 'getitem_value', 'chain': 'chain_outcome', 'getattrs': 'getattrs_value', 'dict_invert': 'dict_invert_value'}[area],
+                            {'expected': want['out'], 'observed': o['out']}))
+            if area == 'getitem' and o['after'] != c['c']:
+                bad.append(('argument_changed', {'after': o['after']}))
+            if area == 'getattrs' and (o['obj_after'] != c['obj'] or o['base_after'] != c['base']['items']):
+                bad.append(('argument_changed', {'obj_after': o['obj_after'], 'base_after': o['base_after']}))
+            if area == 'dict_invert' and o['after'] != c['items']:
+                bad.append(('argument_changed', {'after': o['after']}))
+            if area == 'dict_invert' and o['out'][0] == 'ok' and o['cls'] != 'Dict':
+                bad.append(('dict_invert_class', {'observed': o['cls']}))
+        elif area == 'relabel':
+            if o['out'][0] != 'ok' or _pairs(o['out'][1]) not in [_pairs(m) for m in want['maps']]:
+                bad.append(('relabel_mapping', {'expected_one_of': want['maps'], 'observed': o['out']}))
+        elif area == 'relabel_dict':
+            if o['after'] != c['items']:
+                bad.append(('argument_changed', {'after': o['after']}))
+            elif o['out'][0] != 'ok':
+                bad.append(('relabel_raised', {'observed': o['out']}))
+            elif o['out'][1]['cls'] != c['cls']:
+                bad.append(('relabel_class', {'observed': o['out'][1]['cls']}))
+            elif o['out'][1]['items'] not in want['dicts']:
+                bad.append(('relabel_items', {'expected_one_of': want['dicts'], 'observed': o['out'][1]['items']}))
+        elif area == 'as_list':
+            ctx.evals += 5
+            if o['after'] != c['inp']:
+                bad.append(('argument_changed', {'after': o['after']}))
+            for name, clause, w in (('lst', 'as_list_value', {'cls': 'list', 'items': want['items']}), ('tup', 'as_tuple_value', {'cls': 'tuple', 'items': want['items']}),
+                                    ('first', 'first_value', want['first']), ('last', 'last_value', want['last'])):
+                if o[name] != w:
+                    bad.append((clause, {'expected': w, 'observed': o[name]}))
+            if o['unique'] not in want['unique']:
+                bad.append(('unique_value', {'expected_one_of': want['unique'], 'observed': o['unique']}))
+            if o['passthru'] != 'same':
+                bad.append(('passthru_value', {'observed': o['passthru']}))
+        elif area == 'tree_repr':
+            if o['lines'] not in want['lines']:
+                bad.append(('tree_repr_lines', {'expected_one_of': want['lines'][:4], 'observed': o['lines']}))
+        for clause, detail in bad:
+            report(ctx, clause, case, detail)
+        log.add(o, case)
+        if (area == 'getitem' and c['d']) or (area == 'chain' and len(c['keys']['k']) > 1) or (area in ('relabel', 'relabel_dict') and c['kw']) \
+                or (area == 'getattrs' and c['base']['sp'] != 'none') or (area == 'dict_invert' and len(c['items']) > 1) \
+                or (area == 'as_list' and len(c['inp']['xs']) > 1) or (area == 'tree_repr' and c['tree']['kids']):
+            ctx.note((area, k))
+        if k % 1499 == 0:
+            ctx.sample({'items_case': {'area': area, 'c': c, 'want': want}})
+
+
+VALS = [["i", 1], ["i", 2], ["i", 0], ["f", [1, 1]], ["f", [5, 2]], ["b", 1], ["b", 0], ["s", "a"], ["s", "x"], ["s", ""], ["n", 0]]
+HASHV = VALS + [["t", [["i", 1], ["i", 2]]], ["t", []]]
+
+
+def rand_val(rng, depth=0, nan=False):
+    r = rng.random()
+    if depth < 2 and r < 0.15:
+        return ["l", [rand_val(rng, depth + 1) for _ in range(rng.choice([0, 1, 2]))]]
+    if depth < 2 and r < 0.25:
+        return ["t", [rand_val(rng, depth + 1) for _ in range(rng.choice([0, 1, 2]))]]
+    if nan and r < 0.33:
+        return ["nan", rng.choice([1, 2, 3])]
+    return rng.choice(VALS)
+
+
+def _hashable_tag(t):
+    return t[0] not in ('l', 'm') and (t[0] != 't' or all(_hashable_tag(x) for x in t[1]))
+
+
+def rand_items_case(rng):
+    """a random call of one of the helpers, wider than the enumerated menus (longer containers, other names, deeper chains)"""
+    area = rng.choice(['getitem', 'chain', 'chain', 'getattrs', 'relabel', 'relabel_dict', 'dict_invert', 'as_list', 'as_list', 'tree_repr'])
+    names = ['a', 'b', 'c', 'k1', 'x_']
+    if area == 'getitem':
+        kind = rng.choice('mmltsi')
+        n = rng.choice([0, 1, 2, 4, 7])
+        if kind == 'm':
+            cont = ["m", [[k, rand_val(rng)] for k in sorted(rng.sample(['a', 'b', 'c', 'd', 'k1', 'zz'], min(n, 6)))]]
+        elif kind in 'lt':
+            cont = [kind, [rand_val(rng) for _ in range(n)]]
+        elif kind == 's':
+            cont = ["s", 'abcdefg'[:n]]
+        else:
+            cont = rng.choice([["i", 5], ["n", 0], ["f", [1, 2]]])
+        key = rng.choice([["s", rng.choice(['a', 'b', 'zz', 'k1'])], ["i", rng.randint(-9, 9)], ["b", rng.choice([0, 1])], ["n", 0],
+                          ["l", [["i", 1]]], ["t", [["i", 1]]], ["t", [["l", []]]], ["f", [1, 1]]])
+        if key[0] == 'f' and kind in 'mlts':
+            key = ["i", 0]                  # a float key: 1.0 finds 1 in a dict and is no index - outside the universe of the law
+        return area, {'c': cont, 'k': key, 'd': [rand_val(rng) for _ in range(rng.choice([0, 0, 1, 1, 2]))]}
+    if area == 'chain':
+        n = rng.choice([1, 1, 2, 3, 4, 5])
+        ks = [rng.choice(['push', 'push', 'push', 'need', 'peek', 'nope']) for _ in range(n)]
+        keys = {'sp': 'one', 'k': ks[:1]} if n == 1 and rng.random() < 0.6 else {'sp': 'many', 'k': ks}
+        def step_args():
+            return [rng.choice([["i", 1], ["i", 2], ["s", "a"], ["n", 0]]) for _ in range(rng.choice([0, 0, 1, 1, 2]))]
+        def step_kw():
+            return [[nm, ["i", rng.randint(0, 3)]] for nm in sorted(rng.sample(['x', 'y', 'z'], rng.choice([0, 0, 1, 1, 2])))]
+        r = rng.random()
+        if r < 0.25:
+            args = {'sp': 'none', 'a': []}
+        elif r < 0.5:
+            args = {'sp': 'tuple', 'a': step_args()}
+        else:
+            m = rng.choice([1, n, n, n, rng.choice([2, 3])])
+            args = {'sp': 'list', 'a': [step_args() for _ in range(m)]}
+        r = rng.random()
+        if r < 0.25:
+            kwargs = {'sp': 'none', 'k': []}
+        elif r < 0.5:
+            kwargs = {'sp': 'dict', 'k': step_kw()}
+        else:
+            m = rng.choice([1, n, n, n, rng.choice([2, 3])])
+            kwargs = {'sp': 'list', 'k': [["n", []] if rng.random() < 0.2 else ["d", step_kw()] for _ in range(m)]}
+        return area, {'fn': rng.choice(['callitem', 'callattr']), 'keys': keys, 'args': args, 'kwargs': kwargs}
+    if area == 'getattrs':
+        own = rng.sample(['a', 'b', '_h', '__p', 'q', '_', 'k1'], rng.choice([0, 1, 2, 3, 5]))
+        obj = [[k, rand_val(rng)] for k in own]
+        pool = own + ['kind', 'zz', 'a']
+        r = rng.random()
+        want = {'sp': 'none', 'a': []} if r < 0.2 else {'sp': 'one', 'a': [rng.choice(pool)]} if r < 0.45 else \
+            {'sp': 'many', 'a': [rng.choice(pool) for _ in range(rng.choice([0, 1, 2, 3, 4]))]}
+        sp = rng.choice(['none', 'true', '_', '__', 'inst', 'inst', 'type'])
+        base = {'sp': sp, 'cls': '', 'items': []}
+        if sp in ('inst', 'type'):
+            base['cls'] = rng.choice(['dict', 'dictattr', 'Dict'])
+        if sp == 'inst':
+            base['items'] = [[k, rand_val(rng)] for k in rng.sample(['a', 'q', 'kind', 'w', '_h'], rng.choice([0, 1, 2, 3]))]
+        return area, {'obj': obj, 'want': want, 'base': base, 'd': [rand_val(rng)] if rng.random() < 0.5 else []}
+    if area in ('relabel', 'relabel_dict'):
+        n = rng.choice([1, 1, 2, 3, 4])
+        keys = rng.sample(names, n)
+        sp = rng.choice(['none', 'affix', 'affix', 'fn', 'fn', 'dict', 'names', 'pos'])
+        form = {'sp': sp, 's': '', 'items': [], 'names': []}
+        if sp == 'affix':
+            form['s'] = rng.choice(['x_', '_x', '_', '_x_', 'new_', '_old'] + (['A', 'name'] if n == 1 else []))
+        elif sp == 'fn':
+            form['s'] = rng.choice(['upper', 'dbl', 'const'])
+        elif sp == 'dict':
+            form['items'] = [[k, rng.choice(['A', 'B', 'a', 'n1'])] for k in rng.sample(names + ['q'], rng.choice([0, 1, 2]))]
+        elif sp in ('names', 'pos'):
+            form['names'] = [rng.choice(['A', 'B', 'C', 'x_', '_y', 'a']) for _ in range(n)]
+        kw = [[k, rng.choice(['Z', 'a', 'b', 'Y'])] for k in rng.sample(names + ['q'], rng.choice([0, 0, 1, 2]))]
+        if area == 'relabel':
+            return area, {'keys': keys, 'one': n == 1 and rng.random() < 0.5, 'form': form, 'kw': kw}
+        return area, {'cls': rng.choice(['dictattr', 'Dict']), 'items': [[k, rng.choice(VALS)] for k in keys], 'form': form, 'kw': kw}
+    if area == 'dict_invert':
+        n = rng.choice([0, 1, 2, 3, 5, 8])
+        pool = rng.sample(HASHV, rng.choice([2, 3, 5])) + [["nan", 1], ["nan", 2]] * (rng.random() < 0.3) + [["l", [["i", 1]]]] * (rng.random() < 0.15)
+        return area, {'items': [['k%02d' % i, rng.choice(pool)] for i in range(n)]}
+    if area == 'as_list':
+        sp = rng.choice(['none', 'scalar', 'str', 'set', 'dict', 'gen', 'array', 'list', 'list', 'list', 'tuple', 'tuple', 'tuple1list', 'range', 'keys', 'values', 'zip'])
+        n = rng.choice([0, 1, 2, 3, 5])
+        same = rng.random() < 0.4
+        v0 = rand_val(rng, 1)
+        elts = [v0 if same else rand_val(rng, 1, nan=True) for _ in range(n)]
+        if sp == 'none':
+            xs = []
+        elif sp == 'scalar':
+            xs = [rng.choice([["i", 1], ["f", [1, 2]], ["b", 1], ["i", 0]])]
+        elif sp == 'str':
+            xs = [["s", rng.choice(['', 'a', 'hello'])]]
+        elif sp in ('set', 'dict'):
+            xs = [["i", 1]][:rng.choice([0, 1])]
+        elif sp in ('gen', 'array'):
+            xs = [["i", i] for i in range(n)]
+        elif sp == 'range':
+            lo = rng.randint(-2, 2)
+            xs = [["i", lo + i] for i in range(n)]
+        elif sp == 'keys':
+            xs, seen = [], set()
+            for v in [rng.choice([["i", 1], ["i", 2], ["s", "a"], ["n", 0], ["s", "b"]]) for _ in range(n)]:
+                if json.dumps(v) not in seen:
+                    seen.add(json.dumps(v)); xs.append(v)
+        elif sp == 'zip':
+            xs = [["t", [rng.choice(VALS), rng.choice(VALS)]] for _ in range(n)]
+        else:
+            xs = elts
+        if sp == 'tuple' and len(xs) == 1 and xs[0][0] == 'l':
+            sp = 'tuple1list'; xs = xs[0][1]
+        return area, {'inp': {'sp': sp, 'xs': xs}, 'none': rng.random() < 0.3}
+    # tree_repr: random trees, leaves of every length around the 80 columns
+    def leaf():
+        if rng.random() < 0.2:
+            return {'t': 'i', 'cls': '', 'kids': [], 's': '', 'n': rng.choice([0, 5, 123456])}
+        return {'t': 's', 'cls': '', 'kids': [], 's': rng.choice('xymw') * rng.choice([1, 3, 20, 38, 39, 40, 41, 70, 79, 80, 81, 120]), 'n': 0}
+    def node(depth):
+        r = rng.random()
+        if depth >= 3 or r < 0.35:
+            return leaf()
+        if r < 0.5:
+            return {'t': 'l', 'cls': 'list', 'kids': [["", node(depth + 1)] for _ in range(rng.choice([0, 1, 2, 3]))], 's': '', 'n': 0}
+        ks = rng.sample(['a', 'bb', 'c', 'key', 'p', 'q', 'long_key_name'], rng.choice([0, 1, 2, 3, 4]))
+        return {'t': 'd', 'cls': rng.choice(['dict', 'dict', 'dict', 'Dict', 'dictattr']), 'kids': [[k, node(depth + 1)] for k in ks], 's': '', 'n': 0}
+    return area, {'tree': node(0), 'offset': rng.choice([0, 0, 2, 4, 7])}
+
+
+def c2s_items(ctx, n, log):
+    for i in range(n):
+        area, c = rand_items_case(ctx.rng)
+        o = observe_items(area, c)
+        ctx.evals += 6 if area == 'as_list' else 1
+        log.add(o, items_case(area, c))
+        if i % 499 == 0:
+            ctx.sample({'items_observed': {k: o[k] for k in o if k != 'area'}})
+
+
+def run_items(ctx, log):
+    ctx.mc('MC_AccessItems', 'MC_AccessItems_quick.cfg' if ctx.quick else 'MC_AccessItems_thorough.cfg')
+    cases = ctx.generate('MC_AccessItems', 'MC_AccessItems_gen.cfg' if ctx.quick else 'MC_AccessItems_gent.cfg')
+    s2c_items(ctx, cases, log)
+    c2s_items(ctx, 2500 if ctx.quick else 30000, log)
+
 # =========================================================================================================
 def judge(ctx, log):
     """Trace_Access judges every recorded line; a rejected line may name several clauses (joined by ';'), a clause may
@@ -292,11 +581,14 @@ def corrupt(obs):
 
 def run(ctx):
     _seen.clear()
+    logging.getLogger('pyg').setLevel(logging.ERROR)          # is_ts warns about every unsorted index it is shown
     log = Log()
     if ONLY:
         ctx.extra['partial_run'] = ONLY
     if ONLY in ('', 'types'):
         run_types(ctx, log)
+    if ONLY in ('', 'items'):
+        run_items(ctx, log)
     judge(ctx, log)
     ctx.rule = ('distinct non-trivial = TLC-enumerated cases with a container / numpy scalar (types), a present default, chain or '
                 'collision (items), a keyword-only parameter or a partial (signatures)')
